@@ -178,6 +178,17 @@ def run(ctx):
             h = [F.G.seg([(F.B, ['FULL', 'Int16', n]), (F.A, ['FULL', 'Int32', n])], chunks=2, interleaved=il)]
             for marker in (False, True):
                 items.append(('int16+int32/%s-len%d' % ('interleaved' if il else 'contiguous', n), h, ctx.seed, marker, True))
+    # raw data that looks like a segment start (tag, a plausible ToC / version, offsets that fit): a reader hunting for the next
+    # lead-in inside an open-ended segment must not mistake it; every cut, with and without the marker
+    import struct
+    look = [0x6D534454, 0x0E, 4713, 0, 0, 0, 0, 7, 0x6D534454, 0x0E, 4712, 64, 0, 20, 0]
+    hx = [struct.pack('<I', v).hex() for v in look]
+    for big in (False, True):
+        h = [F.G.seg([(F.A, ['FULL', 'Int32', 2]), (F.B, ['FULL', 'Int16', 1])], big=big),
+             F.G.seg([(F.A, ['FULL', 'Uint32', len(look), hx if not big else [struct.pack('>I', v)[::-1][::-1].hex() for v in look]])], chunks=2, big=big)]
+        h[0]['objects'][0]['enc'] = ['FULL', 'Uint32', 2]
+        for marker in (False, True):
+            items.append(('uint32/lookalike-%s' % ('BE' if big else 'LE'), h, ctx.seed, marker, True))
     m = merge(ctx.map(run_file, items))
     c = m['counters']
     vac = [] if c.get('cuts_in_data') else ['no cut fell inside raw data']
